@@ -200,10 +200,18 @@ namespace Givaro
     }
 
     inline ModularBalanced<int64_t>::Element&
+    ModularBalanced<int64_t>::init(Element& x, const uint64_t y) const
+    {
+        x = static_cast<Element>(y % static_cast<uint64_t>(_p));
+        NORMALISE_HI(x);
+        return x;
+    }
+
+    inline ModularBalanced<int64_t>::Element&
     ModularBalanced<int64_t>::init(Element& x, const Integer& y) const
     {
         x = static_cast<Element>(y % _p);
-        NORMALISE_HI(x);
+        NORMALISE(x); // y % _p has the sign of y
         return x;
     }
 
